@@ -314,6 +314,12 @@ def check_switches(R, prog):
                and isinstance(s.targets[0], ast.Name)}
         given = {}
         for i, a in enumerate(c.args[1:]):
+            if isinstance(a, ast.Starred):
+                # Shuffle(F, *modes): the k-th remaining parameter receives modes[k] (decided by folding only)
+                for k, pname in enumerate(sh.params[1 + i:1 + len(params)]):
+                    given[pname] = ast.fix_missing_locations(ast.copy_location(
+                        ast.Subscript(value=a.value, slice=ast.Constant(value=k), ctx=ast.Load()), a))
+                break
             if i < len(params):
                 given[sh.params[1 + i]] = a
         for k in c.keywords:
@@ -379,6 +385,9 @@ def fold_switch(fi, arg, params, dest):
     for combo in itertools.product([False, True], repeat=3):
         ns = types.SimpleNamespace(**{"no_" + p_: v for p_, v in zip(params, combo)})
         f = Folder(env={argname[0]: ns})
+        from ..fold import _NODE_HOME
+        if id(fi.node) in _NODE_HOME:
+            f.home = [_NODE_HOME[id(fi.node)]]           # module-level / imported helper functions of the caller's module
         try:
             f.run(chosen)
             got = f.ev(arg)
